@@ -200,7 +200,13 @@ def run(ctx):
                 continue
             n_asg += 1
             fs = Fo.facts_at_ast(x) or frozenset()
-            ok = any(op == '==' and 'n:2' in (a, b) and (a if b == 'n:2' else b).startswith('(%s - ' % rk) for (op, a, b) in fs)
+            # (the value may come from a helper: the fact then names the call that produced it)
+            cands = set([rk, Fo.ident_key(kids(x)[1])])
+            dd_ = uo.by_id.get((peel(kids(x)[1]).get('referencedDecl') or {}).get('id')) if peel(kids(x)[1]).get('kind') == 'DeclRefExpr' else None
+            if dd_ is not None and dd_.get('kind') == 'VarDecl' and kids(dd_):
+                cands.add(Fo.keys.key(kids(dd_)[-1]))
+            ok = any(op == '==' and 'n:2' in (a, b) and any((a if b == 'n:2' else b).startswith('(%s - ' % c_) for c_ in cands)
+                     for (op, a, b) in fs)
             ctx.check(ok, 'C09-range', 'offset parser advances its result to %s only after exactly two digits' % rk.split('#')[0], x,
                       'the cursor returned by the offset parser is moved to a position that is not the end of a complete '
                       'two-digit field (for example past a separator that is not followed by digits): malformed offsets '
@@ -349,7 +355,7 @@ def run(ctx):
     # ---- C09-nul
     for (k2, u2, f2, call) in nul.strchr_sites(ctx, lambda k2, u2, f2: u2.name == 'time_zone_format.cc'):
         nul.check_site(ctx, 'C09-nul', k2, u2, f2, call)
-    ctx.minimum('C09-nul', 2)
+    ctx.minimum('C09-nul', 1)    # the lookups may be folded into one helper
 
 
 class _CtorObs(Observer):
